@@ -886,6 +886,36 @@ impl<'a> Elab<'a> {
                 }
             }
         }
+        // `X.filter(|p| B)` → `match X { Some(p) if B => Some(p), _ => None }`; `X.is_some_and(|p| B)` → `match X { Some(p) => B, None => false }`
+        if (method == "filter" || method == "is_some_and") && m.args.len() == 1 {
+            if let Expr::Closure(cl) = &m.args[0] {
+                if cl.inputs.len() == 1 {
+                    let pat = match &cl.inputs[0] {
+                        Pat::Type(pt) => (*pt.pat).clone(),
+                        other => other.clone(),
+                    };
+                    let recv = self.fold_expr((*m.receiver).clone());
+                    let saved = self.env.clone();
+                    let mut names = vec![];
+                    Self::pat_idents(&pat, &mut names);
+                    for n in names.iter() {
+                        self.unbind(n);
+                    }
+                    let body = self.fold_expr((*cl.body).clone());
+                    self.env = saved;
+                    let pat = self.fold_pat(pat);
+                    if method == "filter" {
+                        // the closure of `filter` receives a reference to the payload
+                        return parse_quote!(match #recv { Some(__p) if { let #pat = &__p; #body } => Some(__p), _ => None });
+                    }
+                    return parse_quote!(match #recv { Some(#pat) => #body, None => false });
+                }
+            }
+        }
+        if method == "unwrap_or_default" && m.args.is_empty() {
+            let recv = self.fold_expr((*m.receiver).clone());
+            return parse_quote!(match #recv { Some(__v) => __v, None => Default::default() });
+        }
         // `X.map_err(Into::into)`  →  match with the modelled conversion `vx_into` (spec function `into_spec`)
         if method == "map_err" && m.args.len() == 1 {
             if let Expr::Path(p) = &m.args[0] {
@@ -893,6 +923,10 @@ impl<'a> Elab<'a> {
                     let recv = self.fold_expr((*m.receiver).clone());
                     return parse_quote!(match #recv { Ok(__v) => Ok(__v), Err(__e) => Err(vx_into(__e)) });
                 }
+                // a constructor / function path as the mapper: apply it (Verus has no constructor-as-function values)
+                let recv = self.fold_expr((*m.receiver).clone());
+                let f = self.fold_expr(m.args[0].clone());
+                return parse_quote!(match #recv { Ok(__v) => Ok(__v), Err(__e) => Err(#f(__e)) });
             }
         }
         // dropcall (e.g. `.into()` wrapper conversion, A10)
@@ -1305,6 +1339,21 @@ impl<'a> Elab<'a> {
             for n in names.iter() {
                 self.unbind(n);
             }
+            let mut arm = arm;
+            // string-literal patterns (`Some("")`) → binding + guard on the modelled string
+            if self.u.strlits && arm.guard.is_none() {
+                if let Pat::TupleStruct(ts) = &mut arm.pat {
+                    if ts.elems.len() == 1 {
+                        if let Pat::Lit(pl) = &ts.elems[0] {
+                            if let Lit::Str(ls) = &pl.lit {
+                                let ls = ls.clone();
+                                ts.elems = std::iter::once::<Pat>(parse_quote!(__s)).collect();
+                                arm.guard = Some((Default::default(), Box::new(parse_quote!(__s.is_lit_(#ls)))));
+                            }
+                        }
+                    }
+                }
+            }
             let guard = arm.guard.map(|(i, g)| (i, Box::new(self.fold_expr(*g))));
             let body = match *arm.body {
                 Expr::Block(b) => {
@@ -1435,6 +1484,8 @@ impl<'a> Elab<'a> {
         let coll: Option<Expr> = match &iter {
             Expr::Reference(r) if r.mutability.is_none() => Some((*r.expr).clone()),
             Expr::MethodCall(m) if m.method == "iter" && m.args.is_empty() => Some((*m.receiver).clone()),
+            // a plain local that is a reference to a collection (`for x in xs` with `xs: &Vec<_>`)
+            Expr::Path(p) if p.path.segments.len() == 1 => Some(iter.clone()),
             _ => None,
         };
         if let Some(c) = coll {
@@ -1645,6 +1696,9 @@ impl<'a> Fold for Elab<'a> {
                 let e = Expr::Assign(ExprAssign { attrs: vec![], left: Box::new(left), eq_token: a.eq_token, right: Box::new(right) });
                 self.wrap_op(e, &format!("{}=", f), false)
             }
+            Expr::Lit(ExprLit { lit: Lit::Str(ls), .. }) if self.u.strlits => {
+                parse_quote!({ __vx_reveal!(#ls); vx_lit(#ls) })
+            }
             Expr::Unsafe(u) => {
                 self.unsupported("unsafe block", u.span());
                 Expr::Unsafe(u)
@@ -1670,6 +1724,20 @@ impl<'a> Fold for Elab<'a> {
     fn fold_path(&mut self, p: Path) -> Path {
         // expression / pattern paths: drop generic args naming dropped generics, rename
         let mut p = p;
+        // whole-prefix renames (`tokio_postgres::Config::new` → `PgConfig::new`)
+        {
+            let segs: Vec<String> = p.segments.iter().map(|s| s.ident.to_string()).collect();
+            for (from, to) in self.u.pathrename.iter() {
+                let fs: Vec<&str> = from.split("::").collect();
+                if segs.len() >= fs.len() && segs.iter().zip(fs.iter()).all(|(a, b)| a == b) {
+                    let mut new_segs: Vec<PathSegment> = vec![PathSegment { ident: ident(to), arguments: PathArguments::None }];
+                    new_segs.extend(p.segments.iter().skip(fs.len()).cloned());
+                    p.segments = new_segs.into_iter().collect();
+                    p.leading_colon = None;
+                    break;
+                }
+            }
+        }
         for seg in p.segments.iter_mut() {
             let mut rw = crate::ty::TyRw { u: self.u, in_unit_ty: false };
             syn::visit_mut::VisitMut::visit_path_arguments_mut(&mut rw, &mut seg.arguments);
